@@ -1,13 +1,41 @@
 #!/usr/bin/env python3
-"""print the markdown table of seeded changes (seeded/*/meta.json) for DESIGN.md §10.4"""
-import json, os, glob
+"""markdown table of the seeded changes (seeded/*/meta.json) for DESIGN.md §10.4; --write replaces the block between the
+SEED_TABLE markers in DESIGN.md"""
+import glob
+import json
+import os
+import re
+import sys
+
 HERE = os.path.dirname(os.path.dirname(os.path.abspath(__file__)))
-print("| id | property | change (one line) | needs | caught by |")
-print("|----|----------|-------------------|-------|-----------|")
-for d in sorted(glob.glob(os.path.join(HERE, "seeded", "*"))):
-    m = json.load(open(os.path.join(d, "meta.json")))
-    det = [k for k, v in sorted(m.get("checks", {}).items()) if v.get("violation")]
-    rules = sorted(set(r for k in det for r in m["checks"][k].get("rules", [])))
-    summ = (m.get("summary") or "").split(". ")[0][:160]
-    needs = (m.get("needs") or "").split(". ")[0][:120]
-    print("| %s | %s | %s | %s | %s |" % (m["id"], m["property"], summ.replace("|", "/"), needs.replace("|", "/"), (", ".join(rules) or "**missed**")))
+
+
+def table():
+    rows = ["| id | property | change | needs | caught by (rules) | first run |", "|----|----------|--------|-------|-------------------|-----------|"]
+    n = miss = 0
+    for d in sorted(glob.glob(os.path.join(HERE, "seeded", "*"))):
+        m = json.load(open(os.path.join(d, "meta.json")))
+        n += 1
+        det = [k for k, v in sorted((m.get("checks") or {}).items()) if v.get("violation")]
+        rules = sorted(set(r.split(" ")[0] for k in det for r in m["checks"][k].get("rules", [])))
+        own = m["property"] in det
+        summ = re.split(r"(?<=[a-z\)])\. ", (m.get("summary") or ""))[0][:170].replace("|", "/").replace("\n", " ")
+        needs = re.split(r"(?<=[a-z\)])\. ", (m.get("needs") or ""))[0][:110].replace("|", "/").replace("\n", " ")
+        hist = m.get("history") or ("caught" if own else "")
+        if not det:
+            miss += 1
+        rows.append("| %s | %s | %s | %s | %s%s | %s |" % (m["id"], m["property"], summ, needs, ", ".join(rules) or "**missed**", "" if own or not det else " (not by %s)" % m["property"], hist))
+    rows.append("")
+    rows.append("%d seeded changes verified; %d caught by at least one registered check, %d missed." % (n, n - miss, miss))
+    return "\n".join(rows)
+
+
+if __name__ == "__main__":
+    t = table()
+    if "--write" in sys.argv:
+        p = os.path.join(HERE, "DESIGN.md")
+        s = open(p).read()
+        s = re.sub(r"<!-- SEED_TABLE_BEGIN -->.*<!-- SEED_TABLE_END -->", "<!-- SEED_TABLE_BEGIN -->\n" + t.replace("\\", "\\\\") + "\n<!-- SEED_TABLE_END -->", s, flags=re.S)
+        open(p, "w").write(s)
+    else:
+        print(t)
